@@ -244,8 +244,12 @@ def run(ctx):
         if s["k"] == "assign" and s["place"] == {"l": 0}:
             ok = s["rv"]["k"] == "use" and "c" in s["rv"]["op"]
             ctx.ob("C13.G3.cost-is-constant-per-variant", "%s|ret" % FFI, ok, "returns a non-constant", ffi.where(bb))
-    # track subtracts exactly the cost
-    wr = [(f, bb, p) for f, bb, w, p in query.field_accessors(prog, TRACKER, "remaining") if w]
+    # track subtracts exactly the cost.  The counter is found by role: the field of the tracker that `track` writes
+    # (`remaining` on the pinned tree); the other fields are the configured budget.
+    tfields = [fl["name"] for fl in (prog.adts.get(TRACKER) or {"variants": [{"fields": []}]})["variants"][0]["fields"]]
+    written = sorted({n_ for d_ in flow.stores(track) for n_ in flow._proj_names(d_.place) if n_ in tfields})
+    REM = written[0] if len(written) == 1 else "remaining"
+    wr = [(f, bb, p) for f, bb, w, p in query.field_accessors(prog, TRACKER, REM) if w]
     ctx.floor("C13.G3 writes of FuelTracker.remaining", len(wr), 1)
     for f, bb, p in wr:
         ctx.ob("C13.G3.remaining-written-only-by-track", f.path, f.path in (TRACK, NEW) or private_helper_of(f.path, (TRACK,)),
@@ -253,7 +257,7 @@ def run(ctx):
     ok = False
     detail = ""
     for d in flow.stores(track):
-        if "remaining" in flow._proj_names(d.place):
+        if REM in flow._proj_names(d.place):
             os_ = flow.origins(track, d.rv["op"]) if d.rv["k"] == "use" else []
             detail = "%r" % os_
             for o in os_:
@@ -267,7 +271,7 @@ def run(ctx):
                 if len(operands) == 2:
                     a = flow.origins(track, operands[0])
                     b = flow.origins(track, operands[1])
-                    if (len(a) == 1 and a[0].kind == "arg" and "remaining" in a[0].proj and len(b) == 1
+                    if (len(a) == 1 and a[0].kind == "arg" and REM in a[0].proj and len(b) == 1
                             and b[0].kind == "call" and b[0].call.name == FFI):
                         ok = True
                     detail = "remaining := %r - %r" % (a, b)
@@ -280,7 +284,7 @@ def run(ctx):
         ctx.ob("C13.G4.tracker-readers-are-reviewed", f.path, f.path in TRACKER_READERS or private_helper_of(f.path, (EVAL_IMPL,)),
                "State.fuel_tracker is consulted outside the charge site / fuel_levels: fuel may influence output",
                f.where(bb))
-    for fld in ("remaining", "initial"):
+    for fld in (tfields or ["remaining", "initial"]):
         for f, bb, w, p in query.field_accessors(prog, TRACKER, fld):
             ctx.ob("C13.G4.tracker-fields-private-to-fuel.rs", "%s|%s" % (f.path, fld),
                    f.path.startswith("minijinja::vm::fuel::"), "", f.where(bb))
